@@ -104,9 +104,8 @@ def gen_fn_tables(rng, thorough):
     return ops
 
 
-def fn_oracle(ops, out):
+def _fn_oracle(ops, out, v):
     """direct statement of what each function must return; list of (key, message, index)"""
-    v = []
     sizes, tss, offs = [], [], []
     for k, (o, l) in enumerate(zip(ops, out)):
         w = o.split()
@@ -239,11 +238,10 @@ def gen_ring_history(rng, thorough):
     return ops
 
 
-def ring_oracle(ops, out):
+def _ring_oracle(ops, out, v):
     """C05 over the implementation's own outputs: every slice handed to a reader (and every range the sink-like reader
     appends) is a run of whole committed frames, 8-aligned, exactly chained, with the sizes the property demands.
     Bookkeeping here is independent of the model: a log of committed frames and one cursor (in frames) per reader."""
-    v = []
     log = []            # committed frames: (id, size)
     pend = None         # (id, size)
     accepting = True
@@ -264,14 +262,18 @@ def ring_oracle(ops, out):
             n = int(res[-1].split("=")[1])
             if n != exp:
                 v.append(("size-field-formula", "write size for shape %s is %d, the property demands %d" % (w[1:], n, exp), k))
+            if res[1] == "region" and pend is not None:
+                return v        # write_map while a region is mapped
             if res[1] == "region":
                 off = int(res[2])
                 if off % 8:
                     v.append(("header-unaligned", "write region for a frame starts at ring offset %d (not a multiple of 8)" % off, k))
                 pend = (nfr, n)
                 nfr += 1
+        elif w[0] in ("c", "a") and pend is None:
+            return v            # commit / abort with no region mapped: not a single-writer history
         elif w[0] == "c":
-            if pend is not None and accepting:
+            if accepting:
                 log.append(pend)
             pend = None
         elif w[0] == "a":
@@ -280,6 +282,8 @@ def ring_oracle(ops, out):
             accepting = w[1] != "0"
         elif w[0] == "r":
             i = int(w[1])
+            if held.get(i):
+                return v        # read_map on a reader that still holds a slice: not a history the property speaks about
             if res[1] == "-":
                 held[i] = []
                 continue
@@ -358,7 +362,7 @@ def gen_pipe_case(rng, thorough):
     tot = sum(sz[i % len(sz)] for i in range(k)) if not window else k * big
     cap = tot if r < 0.4 else tot + 8 if r < 0.5 else tot + rng.randint(1, 7) if r < 0.6 else rng.randint(big + 1, 5 * big)
     cap = max(cap, big + 8)
-    lines = ["CAP %d" % cap, "FCAP %d" % max(cap, big + 8), "DELAY %s" % rng.choice(["0", "0.0005", "0.002", "0.01", "0.5", "5", "50"]),
+    lines = ["CAP %d" % cap, "FCAP %d" % max(cap, big + 8), "DELAY %s" % rng.choice(["0", "0.0005", "0.002", "0.01", "0.05", "0.2", "0.5"]),
              "FILTER %d" % window, "FRAMES %d" % rng.randint(3, 60 if thorough else 30)]
     for s in shapes:
         lines.append("SHAPE %d %d %d %d %d %d" % s)
@@ -385,12 +389,11 @@ def parse_packet(l):
     return off, ln, frames, end, trunc
 
 
-def pipe_oracle(case, lines):
+def _pipe_oracle(case, lines, v):
     """every packet handed to storage_append and every client mapping: 8-aligned headers, size field = 96 + image bytes
     (of the header's own shape) rounded up to 8, exact chaining onto the packet end, and -- without the filter -- the
     shape the camera reported for that frame; the client's and the sink's packets each continue where the previous
     one of the same reader stopped (frame ids)."""
-    v = []
     filt = any(l.startswith("FILTER ") and l.split()[1] != "0" for l in case)
     cam = {}
     nxt = {"A": None, "M": None}
@@ -447,6 +450,23 @@ def pipe_oracle(case, lines):
             v.append(("stuck", "the pipeline run did not finish: " + l[:200], k))
             break
     return v
+
+
+def _safe(inner):
+    def oracle(ops, out):
+        v = []
+        try:
+            inner(ops, out, v)
+        except Exception as ex:   # a garbled / truncated output line (the implementation wrote nonsense or died mid-line)
+            v.append(("garbled-output", "the implementation's output could not be interpreted (%s: %s); last lines: %s"
+                      % (type(ex).__name__, ex, [l[:160] for l in out[-2:]]), max(0, len(out) - 1)))
+        return v
+    return oracle
+
+
+fn_oracle = _safe(_fn_oracle)
+ring_oracle = _safe(_ring_oracle)
+pipe_oracle = _safe(_pipe_oracle)
 
 
 # ======================================================================================================= runners
